@@ -62,6 +62,16 @@ Proof.
     try (destruct (ackready c); reflexivity); try (destruct tcl; reflexivity).
 Qed.
 
+(* a call parked in a select whose context has ended can take the ctx.Done() arm whatever the rest of the system
+   does — in particular while the reader goroutine is busy inside a message handler and takes no step at all *)
+Lemma parked_ctx_enabled : forall s i c kc kx rs,
+  nth_error (calls s) i = Some c -> active c = true -> rest c = ISelect kc kx :: rs -> cx c <> CtxLive ->
+  step (LCall i ACtx) s <> None.
+Proof.
+  intros s i c kc kx rs En Ha Er Hx. cbn [step]. rewrite En. unfold cstep. rewrite Ha, Er. cbn [negb].
+  destruct (cx c); [contradiction|discriminate|discriminate].
+Qed.
+
 (* ===================================================================================== *)
 (** * B. Basic facts about steps *)
 
